@@ -230,6 +230,13 @@ class Slicer:
         elif isinstance(item, slice):
             return Slicer.parse_slice(item, labels)
 
+    def _forget_cached(self):
+        """
+        Drop the cached shape and size: a copy of a slicer carries the values cached by the original.
+        """
+        self.__dict__.pop('shape', None)
+        self.__dict__.pop('size', None)
+
     def get(self):
         """
         Get data pointed to by slices.
@@ -276,7 +283,15 @@ class Slicer:
         elif isinstance(values, np.ndarray):
             if np.shape(values) != self.shape or np.size(values) != self.size:
                 raise ValueError("Shape or size of values doesn't match.")
-            self.array.__setitem__(self.slices, values)
+            if isinstance(self.slices, list):
+                # a list of single elements: one value per listed element, in order
+                for index, value in zip(self.slices, values.flatten()):
+                    self.array.__setitem__(index, [[value]])
+            else:
+                self.array.__setitem__(self.slices, values)
+        elif isinstance(self.slices, list):
+            for index in self.slices:
+                self.array.__setitem__(index, [[values]])
         else:
             self.array.__setitem__(self.slices, [[values]])
 
@@ -336,6 +351,7 @@ class Slicer:
         if isinstance(self.slices, list):
             new_slicer = copy(self)
             new_slicer.slices = new_slicer.slices.__getitem__(item)
+            new_slicer._forget_cached()
             return new_slicer
 
         if isinstance(item, (int, slice)):
@@ -352,6 +368,7 @@ class Slicer:
                 new_slicer.items = item
                 new_slicer.slices = (Slicer._process_sub_slice(self.slices[0], item[0], self.row_labels),
                                      Slicer._process_sub_slice(self.slices[1], item[1], self.col_labels))
+                new_slicer._forget_cached()
                 return new_slicer
             else:
                 raise TypeError("Invalid slice.")
